@@ -1,0 +1,10 @@
+//go:build verif
+
+// Verification contracts (comments only; compiled only with -tags verif).
+// Checked by /verif/bin/govc; see /verif/DESIGN.md.
+
+package standard
+
+//@ // C17: lock discipline.
+//@ type Service
+//@   guarded_by validatorsMutex: validatorsByIndex, validatorsByPubKey, validatorPubKeyToIndex
